@@ -21,7 +21,7 @@ CLAIMED = {
          'indexed / option nodes and mergemany of indexed nodes never yield a non-option node with a negative index; every node-method harness of C01-C10, C12 and C17 that decodes a result object '
          'additionally discharges the documented structural rules on it (offsets non-negative, monotone and inside the content; starts <= stops inside the content; size * length inside the content; index / tag inside the '
          'content, negative index only in option nodes; mask and content long enough; record fields at least as long as the record array; no union directly inside a union; for final results such as combinations along axis 0 also: no indexed / option-type node directly on another one) - "operations on valid arrays return valid arrays" '
-         'for the methods those harnesses run (see DESIGN.md 9.5 / 9.6).',
+         'for the methods those harnesses run (see DESIGN.md 9.5 / 9.6); Content::validityerror_parameters on a string / bytestring list whose char / byte content is not a NumpyArray (an error text, no dereference of the failed cast).',
     note='Kernel level only: the C++ validityerror methods (parameter and canonical-form checks) and Python ak.is_valid need '
          'rapidjson/pybind11 and are outside the claim. Trusted: IR encoder, z3, transcription of the documented rules.',
     technique='SMT bounded model checking of kernel and C++ method LLVM IR (llbmc + z3), biconditional oracle; structural rules on decoded results; native replay'),
@@ -39,7 +39,7 @@ CLAIMED.update({
            'Python indexing applied to the nested list of atoms; the same items passing through the five option-type / indexed classes; a second index array arriving with a '
            'symbolic pairing (NumPy advanced indexing) at the three list classes; Content::getitem_next for an ellipsis / newaxis followed by any mix of integer, range, index-array (1-d, 2-d) and newaxis items on a node '
            'of symbolic depth range (the ellipsis is consumed exactly when the items account for every dimension below; refused for branches of different depth); Content::getitem_next(SliceMissing64) '
-           '(index array with None: None exactly where the index is negative, the right item of every row elsewhere); carry of seven node classes; NumpyArray::getitem on strided views; an empty index array (x[:, []]: one empty list per row) through the three list classes.',
+           '(index array with None: None exactly where the index is negative, the right item of every row elsewhere); carry of seven node classes; NumpyArray::getitem on strided views; an empty index array (x[:, []]: one empty list per row) through the three list classes; an option-type node or a union between two index arrays (the pairing of the earlier array follows the valid entries / the entries of each content); awkward_slicearray_ravel for index arrays of any rank and stride order.',
            'The entry point Content::getitem(Slice) with one item (integer, range of any step sign, index array) on an opaque array of 0..4 entries. '
            'Kernel, kernel-pipeline and single-node method level: toslice() (pybind11), field items inside tuples, jagged slices at the C++ level (kernels only) and slices with several index arrays '
            'beyond two are outside this claim. Trusted: IR encoder, z3, the CPython slice model in hlib.py.', 'DESIGN.md sections 3 (C01) and 9.5', 'SMT bounded model checking of kernel and C++ method LLVM IR (llbmc + z3; node-method harness with an opaque content) against independent oracles; native replay (ASan kernels, whole-library akrun)'),
@@ -60,7 +60,7 @@ CLAIMED.update({
            'broadcast_and_apply / array_ufunc (Python over _ext, cannot be imported) are not addressed; this is the kernel core only.', 'DESIGN.md sections 3 (C04) and 9.5', 'SMT bounded model checking of kernel and C++ method LLVM IR (llbmc + z3; node-method harness with an opaque content) against independent oracles; native replay (ASan kernels, whole-library akrun)'),
  'C05': mc('Bounded model checking of the num / localindex / flatten kernels and the num<->compact_offsets round trip against list-structure laws '
            '(concatenation law for flatten offsets, missing list = empty list). C++ method level (from the IR, opaque content): num and localindex of ListOffsetArray64 / '
-           'ListArray64 / RegularArray at the list level and below it, IndexedOptionArray64::offsets_and_flattened at and below the list level; num / localindex of three real node levels - lists of records (1-3 fields) of lists, lists of union-type entries whose contents differ in depth - addressed by a positive and by a negative axis (both name the innermost lists; a negative axis counts from the leaves of each branch).',
+           'ListArray64 / RegularArray at the list level and below it, IndexedOptionArray64::offsets_and_flattened at and below the list level; num / localindex of three real node levels - lists of records (1-3 fields) of lists, lists of union-type entries whose contents differ in depth - addressed by a positive and by a negative axis (both name the innermost lists; a negative axis counts from the leaves of each branch), and the level that holds the records addressed as 1 / -2; flatten through a union whose list content holds union-type elements (no union directly in a union) and through a union whose contents differ in depth (axis=-1, both orders of the contents).',
            'Outside: ak.unflatten (NumPy in Python), completely_flatten. Known finding: flatten_offsets reads outside '
            'inneroffsets for a degenerate empty list whose start == stop lies outside the content (accepted by the documented rule).', 'DESIGN.md sections 3 (C05) and 9.5', 'SMT bounded model checking of kernel and C++ method LLVM IR (llbmc + z3; node-method harness with an opaque content) against independent oracles; native replay (ASan kernels, whole-library akrun)'),
  'C07': mc('Bounded model checking of combinations_length -> n carry buffers of totallen -> recursive combinations fill, for n in 1..4, with and '
@@ -71,8 +71,8 @@ CLAIMED.update({
            'content base, missing stays missing, numeric fills equal an independently stated C cast, nothing outside the destination range is written. C++ method level: mergemany of IndexedArray / IndexedOptionArray operands of every index width '
            '(entries in order, None stays None, option-ness kept), NumpyArray::mergemany of contiguous int64 arrays of any rank (values and buffer bounds), '
            'UnionArray8_64::simplify_uniontype over a nested union with and without mergeable contents; reverse_merge of every indexed / option index width (an array followed by an indexed one); '
-           'RecordArray::mergemany of tuples (first operand trimmed to its length, field-less records keep their count); mergemany of ListOffsetArray64 / ListArray64 / RegularArray operands in any mix (each list keeps its elements, whatever the origins, gaps or unreachable content).',
-           'Outside: records matched by field name (std::string keys), mergeable dispatch, NumPy promotion table, ak.concatenate(axis>0) in Python; float->int casts outside the target range (UB) assumed away.',
+           'RecordArray::mergemany of tuples (first operand trimmed to its length, field-less records keep their count); mergemany of ListOffsetArray64 / ListArray64 / RegularArray operands in any mix (each list keeps its elements, whatever the origins, gaps or unreachable content); NumpyArray::mergemany of two integer arrays of different types (17 type pairs: item size of NumPy\'s promoted type, every value converted exactly according to its source type).',
+           'Outside: mergeable dispatch, promotion to floating-point / complex / datetime types (a precision defect of datetime merging was repaired after a reading remark; its unit parsing is outside the encoder), ak.concatenate(axis>0) in Python; float->int casts outside the target range (UB) assumed away.',
            'DESIGN.md sections 3 (C08) and 9.5', 'SMT bounded model checking of kernel and C++ method LLVM IR (llbmc + z3; node-method harness with an opaque content) against independent oracles; native replay (ASan kernels, whole-library akrun)'),
  'C09': mc('Bounded model checking of the rpad pipelines (length kernel sizes the index buffer of the fill kernel) for ListArray, ListOffsetArray, '
            'RegularArray against the pad law, and of ten option-encoding kernels against one shared validity vector (index<0, byte mask either polarity, '
@@ -96,7 +96,7 @@ CLAIMED.update({
            'extent its specification touches, no store to a Const argument, no division trap, unwinding assertions; validity kernels on arbitrary contents; '
            'sizing pairs (carrylength->range, numtrue->nonzero, rpad length->fill, combinations_length->combinations) with the C++ capacity '
            'expressions; zero-length twins.',
-           'Kernel level plus NumpyArray::mergemany buffer bounds and RecordArray::field at the method level; whole-operation purity, lifetime, Python-level behaviour and allocation failure are outside. Known findings: min_range on a '
+           'Kernel level plus NumpyArray::mergemany buffer bounds, NumpyArray::numbers_to_type on n-dimensional arrays (every item converted, nothing read past the new buffer), IndexOf(length) for every 64-bit length (refused or really allocated) and RecordArray::field at the method level; whole-operation purity, lifetime, Python-level behaviour and allocation failure are outside. Known findings: min_range on a '
            'zero-length array, broadcast_tooffsets with non-monotone offsets.', 'DESIGN.md sections 3 (C12) and 9.5', 'SMT bounded model checking of kernel and C++ method LLVM IR (llbmc + z3; node-method harness with an opaque content) against independent oracles; native replay (ASan kernels, whole-library akrun)'),
 })
 
@@ -124,7 +124,7 @@ CLAIMED.update({
            'the old buffer untouched), UnknownBuilder::integer after k leading None (option builder with index -1 ... -1 0 over an integer builder holding exactly x) and UnionBuilder::integer / real over real leaf builders '
            '(the value goes to the first member of its type, a real number otherwise replaces the first integer member by its float conversion, otherwise a new member; tag / index record that member and its previous length; the rest untouched); TupleBuilder::index from any state (a position outside the tuple - negative included - or an unopened tuple is refused, the selection stays inside the tuple), '
            'TupleBuilder::endtuple (unfilled fields get one None, a field filled twice is refused), begintuple on a fresh builder (negative field counts refused) and RecordBuilder::field_check with real key strings '
-           '(a known key selects its field from any cursor position, a new key appends a field pre-filled with one None per closed record); clear() of record and tuple builders (back to the initial state: no fields, no keys, nothing pending), TupleBuilder::index with a nested tuple open (the position goes to the innermost open tuple), StringBuilder::string (bytes stored unchanged, one offset per string; another encoding opens a union member) and Int64Builder::complex (integers become (re, 0) pairs, nothing read or written past the length).',
+           '(a known key selects its field from any cursor position, a new key appends a field pre-filled with one None per closed record); clear() of record and tuple builders (back to the initial state: no fields, no keys, nothing pending), TupleBuilder::index with a nested tuple open (the position goes to the innermost open tuple), StringBuilder::string (bytes stored unchanged, one offset per string; another encoding opens a union member) and Int64Builder::complex (integers become (re, 0) pairs, nothing read or written past the length); clear() of ListBuilder and of the Bool / Int64 / Float64 / Complex128 / Datetime / String builders (fresh buffers: snapshots taken before never change) and the length a cleared record / tuple builder reports (0).',
            'The other builders (Indexed/Datetime and the remaining leaf builders), from_iter and LayoutBuilder are outside. kernel::malloc stubbed (fresh exact-size buffer), resize in [1.5, 16] '
            '(thorough adds (1, 1.5]).', 'DESIGN.md section 3 (C14)', 'SMT bounded model checking of C++ method LLVM IR (llbmc M-harness, z3 FP); native ASan replay'),
  'C17': mc('Narrow claim (depth and field queries only): purelist_depth, minmax_depth, branch_depth and numfields of ListOffsetArray64, ListArray64, RegularArray, IndexedOptionArray64, '
@@ -141,7 +141,7 @@ CLAIMED.update({
            'ArrayGenerator::generate_and_check (declared length / form enforced, a rejected generation leaves no inferred form) and VirtualArray::array() (cache hit returned as is, '
            'miss generates and stores, a failed generation stores nothing) with opaque generator, cache, content and forms; VirtualArray::getitem_range / getitem_range_nowrap on an array with a declared length and nothing cached '
            '(the generator is not run; the answer is a virtual array whose declared length is len(range(*slice(start, stop).indices(L))) and whose SliceGenerator holds exactly the regularised range over this very array; the whole range returns the array itself) '
-           'and SliceGenerator::generate (the stored slice, unchanged, applied to that array when data are needed).',
+           'and SliceGenerator::generate (the stored slice, unchanged, applied to that array when data are needed); VirtualArray::getitem_fields on a declared form (lazy projection: the generator is not run, the depths the answer remembers are those of the projected form).',
            'Interleavings of several operations on one cache, eviction policies (Python caches), repartition, toContent and partition.py are not addressed. Stubs: Slice/SliceRange bookkeeping, vector push_back, '
            'shared_ptr control blocks (null), string building.', 'DESIGN.md sections 3 (C18) and 9.5',
            'SMT bounded model checking of C++ method LLVM IR (llbmc M-harness, observation stubs for opaque partitions); native test-double replay'),
